@@ -116,10 +116,26 @@ func RoundTrip(v interface{}) proj.M {
 		nameMap = map[string]string{}
 		typMap = map[string]reflect.Type{}
 	}
+	rtPlain++
+	rt := reflect.TypeOf(v)
+	for rt != nil && rt.Kind() == reflect.Ptr {
+		rt = rt.Elem()
+	}
+	if rtPlain%7 == 3 && rt != nil && rt.Kind() == reflect.Struct { // (a list at top level has no declared type to be converted to)
+		// a name map that names the classes only: every list travels untyped and is converted to the
+		// declared slice type on arrival
+		for k, n := range nameMap {
+			if strings.HasPrefix(k, "[") || strings.HasPrefix(n, "[") {
+				delete(nameMap, k)
+			}
+		}
+	}
 	ev := RoundTripWith(v, typMap, nameMap)
 	ev["xpanic"], ev["xmsg"] = xp, xm
 	return ev
 }
+
+var rtPlain int
 
 var rtCount int
 var sharedEnc = hessian.NewEncoder(nil, nil)
